@@ -88,7 +88,7 @@ def run(tier):
                 confs.append((conc, gmp, sd))
     jobs = []
     for wi, (cwd, pk) in enumerate(wss):
-        cs = confs if tier == "thorough" else r.sample(confs, 3)
+        cs = r.sample(confs, 8 if tier == "thorough" else 3)
         for b in ("go-critic", "gocritic"):
             if b == "gocritic" and (tier == "quick" and wi % 4 != 0):
                 continue
